@@ -3,6 +3,7 @@ package gedcom
 import (
 	"reflect"
 	"sync"
+	"sync/atomic"
 )
 
 type Nodes []Node
@@ -12,6 +13,29 @@ type Nodes []Node
 // looked up many time. Especially when doing larger task like comparing GEDCOM
 // files.
 var nodeCache = &sync.Map{} // map[Node]map[Tag]Nodes{}
+
+// cacheGeneration is increased every time a node or a document is modified. The
+// values that are cached on documents, individuals and families remember the
+// generation they were calculated in and are only used while it is current.
+var cacheGeneration int64
+
+// invalidateCaches must be called whenever the children of a node or the root
+// nodes of a document change.
+//
+// This is pretty crude and nasty. I'm sorry if your workflow is to switch
+// between small changes and large sweeping reads but this will do for now.
+//
+// We can't simply remove the changed node from the cache because we would have
+// to make sure we work our way up the chain (and to every individual that is
+// connected through a family) which we have no easy way of doing right now.
+func invalidateCaches() {
+	atomic.AddInt64(&cacheGeneration, 1)
+	nodeCache = &sync.Map{}
+}
+
+func currentCacheGeneration() int64 {
+	return atomic.LoadInt64(&cacheGeneration)
+}
 
 func NewNodes(ns interface{}) (nodes Nodes) {
 	v := reflect.ValueOf(ns)
